@@ -862,16 +862,15 @@ with SqlImpl.impl_store.impl_manager as impl:
 
     @impl(ops.shift)
     def _shift(x, by, empty_value=None):
-        if by >= 0:
-            if empty_value is not None and not isinstance(empty_value.type, sqa.types.NullType):
-                return sqa.func.LAG(x, by, empty_value, type_=x.type)
-            else:
-                return sqa.func.LAG(x, by, type_=x.type)
-        if by < 0:
-            if empty_value is not None and not isinstance(empty_value.type, sqa.types.NullType):
-                return sqa.func.LEAD(x, -by, empty_value, type_=x.type)
-            else:
-                return sqa.func.LEAD(x, -by, type_=x.type)
+        # `empty_value` is a constant parameter: a literal arrives as a python value, a
+        # constant expression as a compiled SQL element.
+        has_fill = empty_value is not None and not (
+            isinstance(empty_value, sqa.ColumnElement) and isinstance(empty_value.type, sqa.types.NullType)
+        )
+        fn = sqa.func.LAG if by >= 0 else sqa.func.LEAD
+        if has_fill:
+            return fn(x, abs(by), empty_value, type_=x.type)
+        return fn(x, abs(by), type_=x.type)
 
     @impl(ops.row_number)
     def _row_number():
